@@ -1,9 +1,11 @@
 From Coq Require Import ExtrOcamlBasic ExtrOcamlString List.
-From WB Require Import Wit.Ty Canon.Spec Abi.Sig Abi.Instr Abi.Cast Abi.Gen.
+From WB Require Import Wit.Ty Canon.Spec Abi.Sig Abi.Instr Abi.Cast Abi.CastSem Abi.Gen Abi.Sem Abi.Check.
 Extraction Language OCaml.
 Extraction "../build/extracted/abi_model.ml"
   Gen.call Gen.post_return Gen.lower_flat Gen.lower_to_memory Gen.lift_from_memory Gen.deallocate_in_types
   Gen.guest_export_needs_post_return Gen.guest_export_params_have_allocations Gen.fresh Gen.bind Gen.gst0
   Sig.flat_types Sig.wasm_signature Sig.sa Sig.wjoin Cast.cast
   Spec.flatten Spec.elem_size Spec.alignment Spec.store Spec.load Spec.lower_flat Spec.lift_flat Spec.mstate0
-  Ty.has_type Spec.valid_ty.
+  Ty.has_type Spec.valid_ty
+  Check.check_lower_flat Check.check_lower_to_memory Check.check_lift_from_memory Check.check_dealloc
+  Check.check_post_return Check.has_heap Check.owned_handles Sem.run_events.
